@@ -49,3 +49,39 @@ Fixpoint check_all (cut limit : nat) (allow : list bytes) (c : acache) (ms : lis
   | m :: r => let '(c1, b) := check_access cut limit allow c m in
               let '(c2, bs) := check_all cut limit allow c1 r in (c2, b :: bs)
   end.
+
+(* ---------- _PythonHelper.__getitem__ ---------- *)
+(* key.rsplit(".", 1): module name and attribute name, split at the LAST dot *)
+Fixpoint cut_at_dot (l : bytes) : option (bytes * bytes) :=
+  match l with
+  | [] => None
+  | c :: r => if c =? 46 then Some ([], r)
+              else match cut_at_dot r with Some (a, b) => Some (c :: a, b) | None => None end
+  end.
+Definition rsplit_dot (key : bytes) : option (bytes * bytes) :=
+  match cut_at_dot (rev key) with
+  | Some (rattr, rmod) => Some (rev rmod, rev rattr)
+  | None => None
+  end.
+
+Inductive goutcome :=
+| GValueError      (* key without a dot *)
+| GDenied          (* RuntimeError from _check_access *)
+| GNoModule        (* ModuleNotFoundError from importlib.import_module(module_name) *)
+| GNoAttr          (* AttributeError from getattr (jinja2 turns it into an undefined value) *)
+| GValue.          (* getattr(module, attribute) is handed to the template *)
+
+(* is_module / has_attr: the Python installation (oracles) *)
+Definition getitem (cut : nat) (allow : list bytes) (is_module : bytes -> bool) (has_attr : bytes -> bytes -> bool)
+           (key : bytes) : goutcome :=
+  match rsplit_dot key with
+  | None => GValueError
+  | Some (m, a) =>
+      if negb (allowed cut allow m) then GDenied
+      else match m with
+           | [] => GValueError                (* importlib.import_module(""): ValueError("Empty module name") *)
+           | 46 :: _ => GNoAttr               (* relative name: TypeError, which jinja2 turns into an undefined value *)
+           | _ => if negb (is_module m) then GNoModule
+                  else if has_attr m a then GValue else GNoAttr
+           end
+  end.
